@@ -189,3 +189,102 @@ Proof.
   intro H. apply generate_inv in H. destruct H as (_ & d0 & _ & ->).
   unfold IdsUnique, ids; simpl. apply dedup_pkgs_spec.
 Qed.
+
+(* ---- the closure loop of copySBOMElements never runs out of fuel ---------------------------- *)
+Lemma add_spec x l : forall y, In y (add x l) <-> In y l \/ y = x.
+Proof.
+  intro y. unfold add. destruct (mem x l) eqn:E.
+  - apply mem_In in E. split; [tauto|]. intros [H| ->]; assumption.
+  - rewrite in_app_iff. simpl. split; [intros [H|[<-|[]]]; tauto | intros [H| ->]; tauto].
+Qed.
+Lemma nodup_snoc (x : string) l : NoDup l -> ~ In x l -> NoDup (l ++ [x]).
+Proof.
+  induction l as [|a l IH]; simpl; intros N H.
+  - constructor; [intros [] | constructor].
+  - inversion N as [|? ? Ha N']; subst. constructor.
+    + rewrite in_app_iff. simpl. intros [?|[E|[]]]; [tauto | apply H; left; congruence].
+    + apply IH; tauto.
+Qed.
+Lemma add_nodup x l : NoDup l -> NoDup (add x l).
+Proof.
+  intro N. unfold add. destruct (mem x l) eqn:E; [exact N|]. apply mem_false in E.
+  apply nodup_snoc; assumption.
+Qed.
+Lemma add_length x l : (List.length l <= List.length (add x l))%nat.
+Proof. unfold add. destruct (mem x l); [lia | rewrite app_length; simpl; lia]. Qed.
+
+Lemma sweep_inv (U : list string) rs : (forall r, In r rs -> In (r_related r) U) ->
+  forall td, NoDup td -> incl td U ->
+    NoDup (sweep rs td) /\ incl (sweep rs td) U /\ (List.length td <= List.length (sweep rs td))%nat.
+Proof.
+  unfold sweep. induction rs as [|r rs IH]; intros HU td N I; simpl.
+  - repeat split; [assumption | assumption | lia].
+  - assert (forall r', In r' rs -> In (r_related r') U) as HU' by (intros; apply HU; right; assumption).
+    destruct (String.prefix file_pfx (r_related r)); [apply IH; assumption|].
+    destruct (mem (r_elem r) td); [|apply IH; assumption].
+    destruct (IH HU' (add (r_related r) td)) as (A & B & C).
+    + apply add_nodup, N.
+    + intros y Hy. apply add_spec in Hy. destruct Hy as [Hy| ->]; [apply I, Hy | apply HU; left; reflexivity].
+    + repeat split; [exact A | exact B |]. pose proof (add_length (r_related r) td). lia.
+Qed.
+
+Lemma closure_fuel_enough (U : list string) rels : (forall r, In r rels -> In (r_related r) U) ->
+  forall fuel prev td, NoDup td -> incl td U ->
+    (List.length td = prev \/ (List.length U < List.length td + fuel)%nat) ->
+    closure fuel rels prev td <> OutOfFuel.
+Proof.
+  intros HU. induction fuel as [|f IH]; intros prev td N I H; simpl.
+  - destruct (Nat.eqb (List.length td) prev) eqn:E; [discriminate|].
+    apply Nat.eqb_neq in E. pose proof (NoDup_incl_length N I). lia.
+  - destruct (Nat.eqb (List.length td) prev) eqn:E; [discriminate|].
+    apply Nat.eqb_neq in E. destruct (sweep_inv U rels HU td N I) as (A & B & C).
+    apply IH; [exact A | exact B | lia].
+Qed.
+
+Lemma closure_never_out_of_fuel rels todo0 : NoDup todo0 ->
+  closure (closure_fuel rels) rels 0 todo0 <> OutOfFuel.
+Proof.
+  intro N. apply (closure_fuel_enough (todo0 ++ List.map r_related rels)).
+  - intros r Hr. apply in_or_app. right. apply in_map, Hr.
+  - exact N.
+  - apply incl_appl, incl_refl.
+  - right. unfold closure_fuel. rewrite app_length, map_length. lia.
+Qed.
+
+Lemma dedup_spec l : NoDup (dedup l) /\ forall x, In x (dedup l) <-> In x l.
+Proof.
+  induction l as [|a l [N I]]; simpl; [split; [constructor | tauto]|].
+  destruct (mem a l) eqn:E.
+  - split; [exact N|]. intro x. rewrite I. apply mem_In in E. split; [tauto | intros [<-|H]; assumption].
+  - apply mem_false in E. split.
+    + constructor; [rewrite I; exact E | exact N].
+    + intro x. simpl. rewrite I. tauto.
+Qed.
+
+Lemma copy_elements_fuel src tgt todo0 : NoDup todo0 -> copy_elements src tgt todo0 <> OutOfFuel.
+Proof.
+  intro N. unfold copy_elements. pose proof (closure_never_out_of_fuel (d_rels src) todo0 N) as H.
+  destruct (closure _ _ _ _); simpl; try discriminate; try congruence.
+  match goal with |- (if ?c then _ else _) <> _ => destruct c; discriminate end.
+Qed.
+
+Lemma process_internal_fuel perm fs d n v : process_internal perm fs d n v <> OutOfFuel.
+Proof.
+  unfold process_internal. destruct (locate _ _) as [[e| |]|]; try discriminate.
+  pose proof (copy_elements_fuel e d (targets n e) (proj1 (dedup_spec _))) as H.
+  destruct (copy_elements _ _ _); simpl; try discriminate; congruence.
+Qed.
+
+Lemma process_apks_fuel perm fs nonce apks : forall d, process_apks perm fs nonce apks d <> OutOfFuel.
+Proof.
+  induction apks as [|a apks IH]; intro d; simpl; [discriminate|].
+  match goal with |- rbind ?r _ <> _ => pose proof (process_internal_fuel perm fs _ (a_name a) (a_version a) : r <> OutOfFuel) as H; destruct r end;
+    simpl; try discriminate; try congruence; try apply IH.
+Qed.
+
+Lemma generate_fuel perm g : generate perm g <> OutOfFuel.
+Proof.
+  unfold generate. destruct (g_layers g); [discriminate|].
+  pose proof (process_apks_fuel perm (g_fs g) (nonce_of g) (g_apks g) (base_doc g)) as H.
+  destruct (process_apks _ _ _ _ _); simpl; try discriminate; congruence.
+Qed.
